@@ -9,8 +9,11 @@ ALL = [f"C{i:02d}" for i in range(1, 21)]
 
 def main():
     checks, na = [], []
+    ready = (VERIF / "harness" / "ready.txt").read_text().split()
     for pid in ALL:
         try:
+            if pid not in ready:
+                raise ModuleNotFoundError(pid)
             mod = importlib.import_module(f"harness.props.{pid.lower()}")
         except ModuleNotFoundError:
             na.append({"property_id": pid, "reason": "check not built yet (work in progress; see DESIGN.md section 4 for the planned proof)"})
